@@ -1,6 +1,7 @@
 import Varint.Bridge.Delta
 import Varint.Bridge.RLEDec
 import Varint.Bridge.FORDec
+import Varint.Bridge.Group
 import Varint.Bridge.RLE
 import Varint.Bridge.Sizes
 import Varint.Lemmas.BP128
@@ -284,5 +285,21 @@ theorem c_for_decode_roundtrip (xs : List Nat) (g : FOR.Good xs) (cap : Nat) (hc
     have : i * (FOR.analyze xs).offsetWidth ≤ i * 8 := Nat.mul_le_mul_left i hw8
     simp only []
     omega
+
+
+/-- **group decode on the translated C** (`varintGroupDecode`: the loop that fills the local `widths[]` array and the
+    loop that reads it back, machine-translated from src/varintGroup.c): from the bytes the model's encoder produces for
+    any 1..64 fields of 64-bit values — followed by anything — it stores the field count, exactly the original values at
+    values[0 … n-1] and returns the encoded length, for every capacity ≥ n. Every fuel above 64. -/
+theorem c_group_decode_roundtrip (xs : List Nat) (h : Group.Ok xs) (cap : Nat) (hcap : xs.length ≤ cap) (rest : List Nat)
+    (hrest : ∀ b ∈ rest, b < 256) (h64 : (Group.enc xs ++ rest).length < 2 ^ 64) (fuel : Nat) (hf : 64 < fuel) :
+    Varint.Gen.C.groupDecode fuel (Varint.Bridge.Tagged.bufOf (Group.enc xs ++ rest)) cap =
+      some ((Group.enc xs).length, some xs.length, Varint.Bridge.storesFrom 0 xs) := by
+  have hb : ∀ b ∈ Group.enc xs ++ rest, b < 256 := by
+    intro b hb
+    rcases List.mem_append.mp hb with hb | hb
+    · exact Group.enc_lt xs h b hb
+    · exact hrest b hb
+  exact ((Varint.Bridge.Group.groupDecode_eq _ hb h64 cap fuel hf).2 xs _ (group_roundtrip xs h cap hcap rest)).1
 
 end Varint.Props.C02
